@@ -403,8 +403,36 @@ func VTextOfPrefix(op PrefixOperator) string { return lexer.VOpText(VTokOfPrefix
 
 // A compound assignment `a op= b` applies the operator `op` it is spelled with.
 
+// VInfixOfAssign: the infix operator a compound assignment is spelled with.
+func VInfixOfAssign(op AssignOperator) InfixOperator {
+	switch op {
+	case PlusAssignOperatorKind:
+		return PlusInfixOperator
+	case MinusAssignOperatorKind:
+		return MinusInfixOperator
+	case MultiplyAssignOperatorKind:
+		return MultiplyInfixOperator
+	case DivideAssignOperatorKind:
+		return DivideInfixOperator
+	case ModuloAssignOperatorKind:
+		return ModuloInfixOperator
+	case PowerAssignOperatorKind:
+		return PowerInfixOperator
+	case ShiftLeftAssignOperatorKind:
+		return ShiftLeftInfixOperator
+	case ShiftRightAssignOperatorKind:
+		return ShiftRightInfixOperator
+	case BitOrAssignOperatorKind:
+		return BitOrInfixOperator
+	case BitAndAssignOperatorKind:
+		return BitAndInfixOperator
+	}
+	return BitXorInfixOperator
+}
+
 /*@ func (self AssignOperator) IntoInfixOperator
-    serves C01, C04
+    serves C01, C04, C03
+    ensures @spelled-operator result == VInfixOfAssign(self)
     requires self != StdAssignOperatorKind && self <= BitXorAssignOperatorKind
     ensures @operator-of-compound-assignment (self == PlusAssignOperatorKind ==> result == PlusInfixOperator) && (self == MinusAssignOperatorKind ==> result == MinusInfixOperator) && (self == MultiplyAssignOperatorKind ==> result == MultiplyInfixOperator) && (self == DivideAssignOperatorKind ==> result == DivideInfixOperator) && (self == ModuloAssignOperatorKind ==> result == ModuloInfixOperator) && (self == PowerAssignOperatorKind ==> result == PowerInfixOperator) && (self == ShiftLeftAssignOperatorKind ==> result == ShiftLeftInfixOperator) && (self == ShiftRightAssignOperatorKind ==> result == ShiftRightInfixOperator) && (self == BitOrAssignOperatorKind ==> result == BitOrInfixOperator) && (self == BitAndAssignOperatorKind ==> result == BitAndInfixOperator) && (self == BitXorAssignOperatorKind ==> result == BitXorInfixOperator)
     ensures @is-arithmetic result <= GreaterThanEqualInfixOperator && result != LogicalOrInfixOperator && result != LogicalAndInfixOperator
